@@ -121,6 +121,16 @@ def check_conformance(seed, n_cases=150):
             exp = exp[k_]
         if functools.reduce(lambda obj, key: obj.__getitem__(key), path, v) != exp:
             bad("functools.reduce is a left fold")
+        # collections.Counter (clause assumed by contracts/dagadmin.py:_Counter for detect_duplicates)
+        from collections import Counter
+
+        seq = [rnd.choice(nodes) for _ in range(rnd.randint(0, 6))]
+        items = list(Counter(seq).items())
+        if len({k for k, _ in items}) != len(items) or {k for k, _ in items} != set(seq):
+            bad("Counter.items() enumerates each distinct element once")
+        for k_, c_ in items:
+            if c_ != sum(1 for e in seq if e == k_) or (c_ > 1) != any(seq[a] == k_ == seq[b] for a in range(len(seq)) for b in range(len(seq)) if a != b):
+                bad("Counter counts occurrences; > 1 iff two different indices")
     # concurrent.futures / asyncio
     cases += 1
     main = threading.get_ident()
